@@ -45,7 +45,11 @@ CONSTANTS Vals,               \* disk states (strings)
           ResetInTransition,  \* Transition clears accelerate after changing the disk   (as coded: TRUE)
           ResetBeforeWindow,  \* ... but does so before releasing the lock (mutant)      (as coded: FALSE)
           StrobeInTransition, \* Transition strobes the poll signal after changing disk  (as coded: TRUE)
-          FixLevel
+          FixLevel,
+          PartialOutcomes,    \* a transition may go wrong part-way (disk neither as before nor as planned)
+          ShallowChangeTest,  \* mutant: such an outcome is classified "made no changes"   (as coded: FALSE)
+          CacheFromPoller     \* mutant: Transition validates the disk against the poller's latest scan instead
+                              \* of the scan the controller was given                      (as coded: FALSE)
 
 VARIABLE s
 
@@ -60,10 +64,10 @@ Init0 ==
    ppc |-> "lock", ptmp |-> None, pprev |-> NoVal, pfirst |-> TRUE, platest |-> NoVal,
    \* controller: first cycle skips Poll
    cpc |-> "slock", ctmp |-> None, ret |-> None, cview |-> Unknown,
-   texp |-> NoVal, tnew |-> NoVal, changedT |-> FALSE, tW |-> 0, scanStart |-> 0,
+   texp |-> NoVal, tnew |-> NoVal, tpart |-> FALSE, changedT |-> FALSE, tW |-> 0, scanStart |-> 0,
    edits |-> 0, trans |-> 0,
    \* monitors (history only)
-   pre |-> NoVal, since |-> {V0}, chg |-> FALSE, pfresh |-> FALSE, seen |-> FALSE]
+   pre |-> NoVal, since |-> {V0}, chg |-> FALSE, wrote |-> FALSE, lost |-> FALSE, pfresh |-> FALSE, seen |-> FALSE]
 
 Capture(x) == [v |-> x.content, t |-> x.clock]
 \* sequential composition of set-valued steps
@@ -119,28 +123,47 @@ CScanE(x) == IF x.cpc = "sE"
              ELSE {}
 \* the controller either has nothing to apply or plans one transition from the snapshot it was given
 CNoTransition(x) == IF x.cpc = "decide" THEN {[x EXCEPT !.cpc = "poll", !.chg = FALSE]} ELSE {}
-CPlan(x, new) == IF x.cpc = "decide" /\ x.trans < MaxTrans /\ new # x.ret.v
-                 THEN {[x EXCEPT !.cpc = "tlock", !.trans = x.trans + 1, !.texp = x.ret.v, !.tnew = new,
-                                 !.pre = x.ret.v, !.chg = FALSE]}
-                 ELSE {}
-CDecide(x) == CNoTransition(x) \cup UNION {CPlan(x, v) : v \in Vals}
+\* (part: whether this transition is going to fail part-way - decided by the environment: content the scan
+\* ignored inside a directory to be removed, a child edited after the scan, a staged file that is missing)
+CPlan(x, new, part) ==
+  IF x.cpc = "decide" /\ x.trans < MaxTrans /\ new # x.ret.v
+  THEN {[x EXCEPT !.cpc = "tlock", !.trans = x.trans + 1, !.texp = x.ret.v, !.tnew = new, !.tpart = part,
+                  !.pre = x.ret.v, !.chg = FALSE]}
+  ELSE {}
+CDecide(x) == CNoTransition(x)
+              \cup UNION {CPlan(x, v, p) : v \in Vals, p \in (IF PartialOutcomes THEN {FALSE, TRUE} ELSE {FALSE})}
 \* Transition: lockScanLock; checks; unlockScanLock
 TLock(x) == IF x.cpc = "tlock" /\ x.lock = "free"
-            THEN {[x EXCEPT !.cpc = "twrite", !.changedT = FALSE,
+            THEN {[x EXCEPT !.cpc = "twrite", !.changedT = FALSE, !.wrote = FALSE,
                             !.accel = IF ResetBeforeWindow THEN FALSE ELSE x.accel]}
             ELSE {}
-\* core.Transition: applies the change only if the disk still is what the snapshot said
-TWriteV(x, v) == IF x.content = x.texp
-                 THEN [Written(x, v) EXCEPT !.cpc = "trelock", !.changedT = TRUE, !.tW = x.clock + 1,
-                                            !.since = {v}, !.cview = Unknown]
-                 ELSE [x EXCEPT !.cpc = "trelock"]
-TWrite(x) == IF x.cpc = "twrite" THEN {TWriteV(x, x.tnew)} ELSE {}
+\* core.Transition.  The disk effect is none, partial or full:
+\*  full     the planned state; only if the disk still is what the snapshot the plan was made from said
+\*           (the just-in-time checks against lastReturnedScanCache), otherwise
+\*  none     nothing is touched;
+\*  partial  (tpart) the disk ends up in a state that is neither the previous nor the planned one (or, if it
+\*           was not what the plan expected in the first place, possibly untouched).
+\* classified = what `transitionMadeChanges` will say (deep comparison of results with Old: TRUE whenever the
+\* disk was changed).  lost: a full write replaced a state the controller was never given.
+TWritten(x, v, classified) ==
+  [Written(x, v) EXCEPT !.cpc = "trelock", !.changedT = classified, !.wrote = TRUE, !.tW = x.clock + 1,
+                        !.since = {v}, !.cview = Unknown]
+TWriteV(x, v) == TWritten(x, v, TRUE)
+TExpected(x) == IF CacheFromPoller THEN x.snap.v ELSE x.texp
+TWrite(x) ==
+  IF x.cpc # "twrite" THEN {}
+  ELSE IF x.tpart
+  THEN {TWritten(x, v, ~ShallowChangeTest) : v \in Vals \ {x.content, x.tnew}}
+       \cup (IF x.content = TExpected(x) THEN {} ELSE {[x EXCEPT !.cpc = "trelock"]})
+  ELSE IF x.content = TExpected(x)
+  THEN {[TWriteV(x, x.tnew) EXCEPT !.lost = x.lost \/ x.content # x.ret.v]}
+  ELSE {[x EXCEPT !.cpc = "trelock"]}
 \* lockScanLock; if accelerate && changed: accelerate = false; if changed: strobe; (deferred) unlock
 TRelock(x) == IF x.cpc = "trelock" /\ x.lock = "free"
               THEN {[x EXCEPT !.accel = IF x.accel /\ x.changedT /\ ResetInTransition /\ ~ResetBeforeWindow
                                         THEN FALSE ELSE x.accel,
                               !.sig = x.sig \/ (x.changedT /\ StrobeInTransition),
-                              !.chg = x.changedT, !.cpc = "poll"]}
+                              !.chg = x.wrote, !.cpc = "poll"]}
               ELSE {}
 ControllerSteps(x) == CPoll(x) \cup CScanLock(x) \cup CScanB(x) \cup CScanE(x) \cup CDecide(x)
                       \cup TLock(x) \cup TWrite(x) \cup TRelock(x)
@@ -184,6 +207,9 @@ NoStaleObs == (s.cpc = "decide" /\ s.chg) => C42_NoStale(s.ret.v, s.pre, s.since
 \* clause 2 as a safety property: once a polling iteration that began after the last modification has
 \* completed, a controller waiting in Poll whose knowledge differs from the disk has a signal pending
 NoticedInv == s.cpc = "poll" => C42_Noticed(s.cview # s.content, s.seen, s.sig)
+\* (C08, seen from here) a transition never replaces a state of the disk the controller was not given, however
+\* many polling scans have absorbed it into the endpoint's own snapshot and cache in the meantime
+NoOverwrite == ~s.lost
 \* clause 2 as liveness: with finitely many edits and transitions the controller ends up knowing the disk
 Converges == <>[](s.cview = s.content)
 
